@@ -425,3 +425,61 @@ func TestC09Concurrent(t *testing.T) {
 		rec.Case(true, strings.Join(imgs, "\n"), func() any { return map[string]any{"writers": n, "rounds": rounds, "specs": imgs} }, "concurrent-writers")
 	})
 }
+
+// TestC09Large: Specs whose written form is 0.8 .. 3 MiB (many devices; few
+// devices with annotations near their 256 KiB limit; long strings full of
+// characters that are written as six-byte escapes) read back equal as well.
+func TestC09Large(t *testing.T) {
+	rec := stats.For("C09", "large")
+	env := &c09Env{base: t.TempDir()}
+	type shape struct {
+		name string
+		mk   func() *specs.Spec
+	}
+	manyDevices := func(n int) func() *specs.Spec {
+		return func() *specs.Spec {
+			s := &specs.Spec{Version: "0.6.0", Kind: "vendor.com/many"}
+			for i := 0; i < n; i++ {
+				s.Devices = append(s.Devices, specs.Device{Name: fmt.Sprintf("dev%05d", i), ContainerEdits: specs.ContainerEdits{
+					Env:   []string{fmt.Sprintf("DEVICE_NUMBER_%05d=some-not-so-short-value-%05d", i, i)},
+					Hooks: []*specs.Hook{{HookName: "prestart", Path: "/usr/bin/hook", Args: []string{"hook", fmt.Sprintf("--device=%d", i)}}}}})
+			}
+			return s
+		}
+	}
+	bigAnnotations := func(devs, bytesEach int, fill string) func() *specs.Spec {
+		return func() *specs.Spec {
+			s := &specs.Spec{Version: "0.6.0", Kind: "vendor.com/blobs"}
+			for i := 0; i < devs; i++ {
+				s.Devices = append(s.Devices, specs.Device{Name: fmt.Sprintf("d%d", i), Annotations: map[string]string{"vendor.com/blob": strings.Repeat(fill, bytesEach/len(fill))},
+					ContainerEdits: specs.ContainerEdits{Env: []string{fmt.Sprintf("D=%d", i)}}})
+			}
+			return s
+		}
+	}
+	shapes := []shape{
+		{"5000-devices", manyDevices(5000)},
+		{"6x200KiB-annotations", bigAnnotations(6, 200*1024, "a")},
+		{"4x200KiB-control-characters", bigAnnotations(4, 200*1024, "\x01")},
+	}
+	if tier() == "thorough" {
+		shapes = append(shapes, shape{"12000-devices", manyDevices(12000)}, shape{"12x250KiB-annotations", bigAnnotations(12, 250*1024, "xy z")}, shape{"8x120KiB-line-breaks", bigAnnotations(8, 120*1024, "a\n")})
+	}
+	mine, of := shard()
+	for i, sh := range shapes {
+		if i%of != mine {
+			continue
+		}
+		s := sh.mk()
+		size := len(specImage(s))
+		msg, rejected := env.check(s)
+		if rejected {
+			t.Fatalf("VERIF-HARNESS the large Spec %s is refused for writing", sh.name)
+		}
+		c := map[string]any{"shape": sh.name, "jsonBytes": size}
+		if msg != "" {
+			t.Fatalf("C09 violated on a large Spec (%s, %d bytes as JSON): %s", sh.name, size, clip(msg, 1500))
+		}
+		rec.Case(size > 1<<20, canonJSON(c), func() any { return c }, "large-spec", fmt.Sprintf("size-MiB-%d", size>>20))
+	}
+}
